@@ -1,14 +1,18 @@
 ---------------------------- MODULE Gen_Announce ----------------------------
-(* Reception sequences for the announce driver with the events and the cache state the
-   specification predicts after each reception. *)
+(* Reception / registration sequences for the announce driver with the events each handler is handed and the
+   cache state the specification predicts after each step.  The first element is the registration of handler h1
+   before the stream starts. *)
 EXTENDS Announce, Json
 VARIABLE hist
 gvars == <<vars, hist>>
 gview == vars
-GInit == Init /\ hist = <<>>
-EvOut(e) == [t |-> e.t, c |-> e.c, v |-> e.v, nuid |-> e.nuid, call |-> e.call]
-GNext == Next /\ hist' = Append(hist, [act |-> lastAct', evs |-> [i \in 1..Len(evs') |-> EvOut(evs'[i])], cache |-> cache'])
+EvOut(d) == [h |-> d.h, t |-> d.e.t, c |-> d.e.c, v |-> d.e.v, l |-> d.e.l, nuid |-> d.e.nuid, call |-> d.e.call,
+             asp |-> IF d.e.t = "ASPECT" THEN d.e.cni ELSE "-"]
+Step(act, es, order, hm, ca) == [act |-> act, evs |-> LET d == Delivered(es, order, hm) IN [i \in 1..Len(d) |-> EvOut(d[i])],
+                                 raised |-> Len(es), cache |-> ca]
+GInit == Init /\ hist = <<Step(lastAct, <<>>, horder, hmask, cache)>>
+GNext == nrecv < MaxRecv /\ Next /\ hist' = Append(hist, Step(lastAct', evs', horder', hmask', cache'))
 GSpec == GInit /\ [][GNext]_gvars
-Dump == /\ (nrecv = MaxRecv => PrintT(<<"TR", ToJson(hist)>>))
-        /\ nrecv < MaxRecv
+\* an invariant is evaluated once per distinct state (of the VIEW): one behaviour into every distinct state after MaxRecv receptions
+Dump == nrecv = MaxRecv => PrintT(<<"TR", ToJson(hist)>>)
 =============================================================================
